@@ -141,7 +141,8 @@ class DiscoverSubcircuits(UsedQubitIndicesVisitor):
 
 
 class TraceVisitor(Visitor):
-    """Call process_trace at the start of every trace in execution order."""
+    """Call process_trace at the end (the measurement) of every trace in
+    execution order."""
 
     def __init__(self, traces):
         self.traces = traces
@@ -154,7 +155,7 @@ class TraceVisitor(Visitor):
     def visit_Circuit(self, circuit):
         if len(self.traces) == 0:
             return
-        self.objective = self.traces[self.index].start
+        self.objective = self.traces[self.index].end
 
         return self.visit(circuit.body)
 
@@ -179,7 +180,7 @@ class TraceVisitor(Visitor):
                     self.objective = None
                     return
                 else:
-                    self.objective = self.traces[self.index].start
+                    self.objective = self.traces[self.index].end
             else:
                 address.append(n)
                 self.visit(nxt)
@@ -199,7 +200,7 @@ class TraceVisitor(Visitor):
                 if self.index == len(self.traces):
                     self.objective = None
                 else:
-                    self.objective = self.traces[self.index].start
+                    self.objective = self.traces[self.index].end
             return
 
         # loop over the classical parts
